@@ -25,7 +25,7 @@ func init() {
 			"C14.8 (=C13.8) a binding is marked refreshed only after the server confirmed a ChannelBind, so steady traffic cannot postpone the periodic re-bind; " +
 			"C14.9 a binding found new or due is always sent: every path of maybeBind that moves the binding to the request/refresh state starts a ChannelBind attempt (no gate defers it to a later check); C14.10 (=C12.9) re-arming a retransmission timer never blocks: no receive on the C of an AfterFunc timer; " +
 			"C14.5 a duplicated or late response (no pending transaction) does not end the client's read loop: handleSTUNMessage returns nil for it; " +
-			"C14.4 the first-close path of UDPConn.Close and TCPAllocation.Close calls refreshAllocation with the constant lifetime 0, and refreshAllocation reaches PerformTransaction on every path that returns nil.",
+			"C14.4 the first-close path of UDPConn.Close and TCPAllocation.Close calls refreshAllocation with the constant lifetime 0, and refreshAllocation reaches PerformTransaction on every path that returns nil. C14.11 (=C13.13) nothing removes an entry of the client's binding table.",
 		NotCovered: "liveness over hours and under loss schedules, server configurations other than the defaults, nonce expiry timing — the bulk of this property is not applicable to static analysis.",
 		Run:        runC14,
 	})
@@ -609,6 +609,7 @@ func runC14(c *Ctx) {
 	ruleDueBindingIsSent(c, "C14.9")
 	// the retransmission timer is re-armed without blocking (=C12.9)
 	ruleNoReceiveOnAfterFuncTimer(c, "C14.10")
+	ruleNoBindingDeletion(c, "C14.11")
 
 	// ---- C14.4
 	c.Rule("C14.4", "release on Close: in UDPConn.Close every path past the already-closed return, and in TCPAllocation.Close every path, ends by calling refreshAllocation(0, …) with the constant lifetime 0; in refreshAllocation every return of a nil error is preceded on all paths by the PerformTransaction call", 3)
